@@ -29,6 +29,18 @@
 //!                    0..4 arguments and by name (parameter names read from bifs/named.rs) over a pool of extreme
 //!                    values (empty list, lists of nulls, nested empty lists, 0, -1, huge numbers, NaN / Infinity,
 //!                    empty string, null, contexts, ranges, functions).
+//! * `qualified-names` impl ⊨ spec, in-process with located panics (a third of the cases also through all entry points
+//!                    in child processes, family `qualified` of the process runner): scopes of 0..3 stacked contexts
+//!                    (fixed shapes and generated trees of numbers, contexts and other values), names of 1..7 segments
+//!                    that resolve fully, to a context, to another value, with the first segment bound and the tail
+//!                    unresolved, or not at all, in 64 operand positions (endpoints of every interval form, unary
+//!                    comparisons, every type position, paths in every expression position). Specification:
+//!                    `q_resolve` (topmost binding of the first segment decides); where the name resolves to a number
+//!                    the value is written out, otherwise the answer must be a value (no panic).
+//! * `long-history`   impl ⊨ spec, one thread: ≈ 48 000 evaluations whose texts differ pairwise in patterns, flags,
+//!                    literals, names, keys, parameter names and types (`history_batch(k)`), then the same again, shuffled,
+//!                    alternating old and new, and single expressions with 65 / 130 / 300 distinct patterns; every answer
+//!                    against the value written next to the text (any bounded per-thread cache must evict).
 
 use crate::c10::{compare_streams, impl_tokens, tokenize_request};
 use crate::model::Model;
@@ -48,6 +60,9 @@ static LAST_PANIC: Mutex<Option<String>> = Mutex::new(None);
 fn install_hook() {
   std::panic::set_hook(Box::new(|info| {
     let loc = info.location().map(|l| format!("{}:{}", l.file(), l.line())).unwrap_or_else(|| "unknown".to_string());
+    if std::env::var("VHARNESS_DEBUG").is_ok() {
+      eprintln!("panic: {}", info);
+    }
     if let Ok(mut g) = LAST_PANIC.lock() {
       *g = Some(loc);
     }
@@ -103,7 +118,10 @@ fn split_scoped(input: &str) -> (Vec<String>, &str) {
 /// The input as shown in a report (the replay): the scope written out, then the text.
 fn shown_input(input: &str) -> String {
   let (names, text) = split_scoped(input);
-  if input.starts_with(SCOPE_MARK) {
+  if input.starts_with(SCOPE_MARK) && names.iter().any(|n| n.starts_with(CTX_MARK)) {
+    let ctxs: Vec<&str> = names.iter().filter_map(|n| n.strip_prefix(CTX_MARK)).collect();
+    format!("scope (contexts, bottom first): [{}] ;; {}", ctxs.join(", "), text)
+  } else if input.starts_with(SCOPE_MARK) {
     let names: Vec<String> = names.iter().map(|n| if n.chars().count() > 60 { format!("{:?}… ({} characters)", n.chars().take(20).collect::<String>(), n.chars().count()) } else { format!("{:?}", n) }).collect();
     format!("parsing scope with the entries Name::from of [{}] (each bound to 1), text: {}", names.join(", "), text)
   } else {
@@ -159,7 +177,14 @@ fn observe(raw: &str) -> Vec<String> {
   let make_scope = || {
     let scope = Scope::default();
     for n in &names {
-      scope.set_entry(&Name::from(n.as_str()), Value::Number(FeelNumber::from_i128(1)));
+      // an entry bound to 1, or (family `qualified`) a whole context pushed on the scope
+      if let Some(ctx_text) = n.strip_prefix(CTX_MARK) {
+        if let Ok(ctx) = dmntk_feel_evaluator::evaluate_context(&Scope::default(), ctx_text) {
+          scope.push(ctx);
+        }
+      } else {
+        scope.set_entry(&Name::from(n.as_str()), Value::Number(FeelNumber::from_i128(1)));
+      }
     }
     scope
   };
@@ -1630,8 +1655,13 @@ pub fn run(cfg: &Cfg) -> Report {
       inputs.push((format!("deep:{}", fam), s));
     }
   }
+  // ------------------------------------------------------------------ names that resolve partially, in every position
+  qualified_names(&mut rep, &mut rng, thorough, &mut inputs);
   let mut seen = HashSet::new();
   inputs.retain(|(_, s)| seen.insert(s.clone()));
+
+  // ------------------------------------------------------------------ one thread, a long history of distinct texts
+  long_history(&mut rep, &mut rng, thorough);
 
   // ------------------------------------------------------------------ temporal-extreme: impl = model
   temporal_extreme(&mut rep, &mut model, &mut rng, thorough);
@@ -2083,4 +2113,437 @@ fn temporal_extreme(rep: &mut Report, model: &mut Model, rng: &mut Rng, thorough
       rep.sample(json!({"family": "temporal-extreme", "feel": c.feel, "request": c.request, "model": want}));
     }
   }
+}
+
+// ------------------------------------------------------------------------------------------
+// family `qualified-names`: names that resolve partially, in every operand position
+// ------------------------------------------------------------------------------------------
+
+/// A value bound in a generated scope: a number, a context, or a value of another kind (FEEL text).
+#[derive(Clone, Debug)]
+enum QTree {
+  Num(i64),
+  Ctx(Vec<(String, QTree)>),
+  Other(&'static str),
+}
+
+const Q_SEGMENTS: [&str; 14] = ["a", "b", "c", "d", "e", "n", "l", "s", "z", "fn", "lc", "q", "Full Name", "Last Name"];
+const Q_OTHERS: [&str; 10] = ["[1, 2]", "\"x\"", "null", "true", "function(x) x", "date(\"2020-01-02\")", "[{b: 1}, {b: 2}]", "@\"P1D\"", "[]", "[1..3]"];
+
+impl QTree {
+  fn text(&self) -> String {
+    match self {
+      QTree::Num(k) => k.to_string(),
+      QTree::Other(t) => t.to_string(),
+      QTree::Ctx(es) => format!("{{{}}}", es.iter().map(|(k, v)| format!("{}: {}", k, v.text())).collect::<Vec<_>>().join(", ")),
+    }
+  }
+  fn gen_ctx(rng: &mut Rng, depth: u32) -> QTree {
+    let n = if depth == 0 { 2 + rng.below(4) } else { rng.below(4) };
+    let mut es: Vec<(String, QTree)> = vec![];
+    for _ in 0..n {
+      let k = rng.pick(&Q_SEGMENTS).to_string();
+      if es.iter().any(|(x, _)| *x == k) {
+        continue;
+      }
+      let v = match rng.below(8) {
+        0..=2 => QTree::Num(rng.below(10) as i64),
+        3 | 4 => QTree::Other(*rng.pick(&Q_OTHERS)),
+        _ if depth < 4 => QTree::gen_ctx(rng, depth + 1),
+        _ => QTree::Num(rng.below(10) as i64),
+      };
+      es.push((k, v));
+    }
+    QTree::Ctx(es)
+  }
+}
+
+/// The specification of name resolution: the topmost context of the stack that binds the first segment decides; every
+/// further segment must be an entry of the context reached so far.
+fn q_resolve<'a>(stack: &'a [QTree], path: &[String]) -> Option<&'a QTree> {
+  let first = path.first()?;
+  let mut cur: Option<&QTree> = None;
+  for ctx in stack.iter().rev() {
+    if let QTree::Ctx(es) = ctx {
+      if let Some((_, v)) = es.iter().find(|(k, _)| k == first) {
+        cur = Some(v);
+        break;
+      }
+    }
+  }
+  let mut cur = cur?;
+  for seg in &path[1..] {
+    match cur {
+      QTree::Ctx(es) => cur = &es.iter().find(|(k, _)| k == seg)?.1,
+      _ => return None,
+    }
+  }
+  Some(cur)
+}
+
+/// A path over the stack: guided along the bound entries and then left at a random point, or random segments.
+fn q_path(rng: &mut Rng, stack: &[QTree]) -> Vec<String> {
+  let mut path: Vec<String> = vec![];
+  if !stack.is_empty() && rng.chance(3, 4) {
+    let mut cur: Option<&QTree> = Some(rng.pick(stack));
+    loop {
+      match cur {
+        Some(QTree::Ctx(es)) if !es.is_empty() && path.len() < 5 => {
+          if !path.is_empty() && rng.chance(1, 5) {
+            break;
+          }
+          let (k, v) = rng.pick(es);
+          path.push(k.clone());
+          cur = Some(v);
+        }
+        _ => break,
+      }
+    }
+    // leave the bound part: one or two segments more (past a leaf, or not an entry of the context reached)
+    if path.is_empty() || rng.chance(1, 2) {
+      for _ in 0..(1 + rng.below(2)) {
+        path.push(rng.pick(&Q_SEGMENTS).to_string());
+      }
+    }
+  } else {
+    for _ in 0..(1 + rng.below(4)) {
+      path.push(rng.pick(&Q_SEGMENTS).to_string());
+    }
+  }
+  path
+}
+
+type QExpect = fn(i64, i64) -> bool;
+
+/// Operand positions: `Q`, `R` are replaced by two names, `V` by a number 0..9. With an expectation where the value is
+/// determined by the number `Q` resolves to (intervals reach from -1 and up to 10, the numbers bound are 0..9).
+const Q_POSITIONS: [(&str, Option<QExpect>); 64] = [
+  // endpoints of intervals and of unary comparisons (grammar: qualified_name)
+  ("V in [Q..10]", Some(|v, k| k <= v)),
+  ("V in (Q..10]", Some(|v, k| k < v)),
+  ("V in ]Q..10]", Some(|v, k| k < v)),
+  ("V in [-1..Q]", Some(|v, k| v <= k)),
+  ("V in [-1..Q)", Some(|v, k| v < k)),
+  ("V in [-1..Q[", Some(|v, k| v < k)),
+  ("V in < Q", Some(|v, k| v < k)),
+  ("V in <= Q", Some(|v, k| v <= k)),
+  ("V in > Q", Some(|v, k| v > k)),
+  ("V in >= Q", Some(|v, k| v >= k)),
+  ("V in (< Q)", Some(|v, k| v < k)),
+  ("V in [Q..R]", None),
+  ("V in (Q..R)", None),
+  ("[Q..R]", None),
+  ("(Q..R]", None),
+  ("V in (< Q, > R)", None),
+  ("V in (<= Q, [R..10], >= R)", None),
+  ("[1, 2, 3][item in [Q..R]]", None),
+  ("{r: < Q}.r", None),
+  ("for i in [V] return i in [Q..R]", None),
+  // types
+  ("V instance of Q", None),
+  ("V instance of list<Q>", None),
+  ("[V] instance of list<Q>", None),
+  ("{k: V} instance of context<k: Q>", None),
+  ("V instance of context<k: Q, m: R>", None),
+  ("V instance of function<Q> -> R", None),
+  ("V instance of function<Q, R> -> Q", None),
+  ("[1..2] instance of range<Q>", None),
+  ("(function(p: Q) p)(V)", None),
+  ("(function(p: Q, r: R) [p, r])(V, V)", None),
+  ("(function(p: list<Q>) p)([V])", None),
+  ("(function(p: Q) p)(p: V)", None),
+  ("function(p: Q) p", None),
+  // paths in expression positions
+  ("Q", Some(|_, _| true)),
+  ("Q + 1", Some(|_, _| true)),
+  ("Q = R", None),
+  ("[Q, R]", None),
+  ("{r: Q, s: R}", None),
+  ("{r: Q}.r", None),
+  ("abs(Q)", None),
+  ("abs(n: Q)", None),
+  ("if Q then 1 else 2", None),
+  ("if true then Q else R", None),
+  ("for i in Q return i", None),
+  ("for i in [1, 2] return Q", None),
+  ("for i in Q..R return i", None),
+  ("some i in Q satisfies i = R", None),
+  ("every i in [1] satisfies Q", None),
+  ("Q[1]", None),
+  ("Q[item = R]", None),
+  ("[1, 2][item > Q]", None),
+  ("Q(1)", None),
+  ("Q(p: 1)", None),
+  ("-Q", None),
+  ("Q between R and 9", None),
+  ("V between Q and R", None),
+  ("Q instance of number", None),
+  ("string(Q)", None),
+  ("V in Q", None),
+  ("V in (Q, R)", None),
+  ("Q ** 2", None),
+  ("not(Q)", None),
+  ("Q and R", None),
+  ("Q or R", None),
+];
+
+/// The value in the spelling the expectations of the families `qualified-names` and `long-history` are written in.
+fn plain(v: &Value) -> String {
+  match v {
+    Value::Null(_) => "null".to_string(),
+    Value::Boolean(b) => b.to_string(),
+    Value::Number(n) => n.to_string(),
+    Value::String(s) => format!("{:?}", s),
+    Value::List(items) => format!("[{}]", items.as_vec().iter().map(plain).collect::<Vec<_>>().join(", ")),
+    Value::Context(ctx) => format!("{{{}}}", ctx.iter().map(|(k, x)| format!("{}: {}", k, plain(x))).collect::<Vec<_>>().join(", ")),
+    other => format!("<{}>", other),
+  }
+}
+
+/// A scope made of the contexts denoted by the texts (bottom first); `None` when a text is not a context.
+fn q_scope(texts: &[String]) -> Option<Scope> {
+  let scope = Scope::new();
+  for t in texts {
+    let ctx = dmntk_feel_evaluator::evaluate_context(&Scope::default(), t).ok()?;
+    scope.push(ctx);
+  }
+  Some(scope)
+}
+
+/// Marks a context text among the scope names of an input of the process family.
+const CTX_MARK: char = '\u{2}';
+
+fn qualified_names(rep: &mut Report, rng: &mut Rng, thorough: bool, inputs: &mut Vec<(String, String)>) {
+  let fixed = QTree::Ctx(vec![
+    (
+      "a".into(),
+      QTree::Ctx(vec![
+        ("b".into(), QTree::Num(1)),
+        ("c".into(), QTree::Ctx(vec![("d".into(), QTree::Num(2)), ("e".into(), QTree::Ctx(vec![("n".into(), QTree::Num(3))]))])),
+        ("z".into(), QTree::Other("null")),
+        ("e".into(), QTree::Ctx(vec![])),
+      ]),
+    ),
+    ("n".into(), QTree::Num(5)),
+    ("l".into(), QTree::Other("[1, 2]")),
+    ("s".into(), QTree::Other("\"x\"")),
+    ("z".into(), QTree::Other("null")),
+    ("fn".into(), QTree::Other("function(x) x")),
+    ("lc".into(), QTree::Other("[{b: 1}, {b: 2}]")),
+    ("e".into(), QTree::Ctx(vec![])),
+    ("Full Name".into(), QTree::Ctx(vec![("b".into(), QTree::Num(4)), ("Last Name".into(), QTree::Num(6))])),
+  ]);
+  let mut stacks: Vec<Vec<QTree>> = vec![
+    vec![fixed.clone()],
+    vec![fixed.clone(), QTree::Ctx(vec![("a".into(), QTree::Num(7))])],
+    vec![QTree::Ctx(vec![("a".into(), QTree::Num(7))]), fixed.clone()],
+    vec![fixed.clone(), QTree::Ctx(vec![("a".into(), QTree::Ctx(vec![]))])],
+    vec![fixed.clone(), QTree::Ctx(vec![]), QTree::Ctx(vec![("n".into(), QTree::Ctx(vec![("a".into(), QTree::Num(8))]))])],
+    vec![QTree::Ctx(vec![])],
+    vec![],
+  ];
+  for _ in 0..(if thorough { 400 } else { 30 }) {
+    let k = 1 + rng.below(3);
+    stacks.push((0..k).map(|_| QTree::gen_ctx(rng, 0)).collect());
+  }
+  let per_stack = if thorough { 600 } else { 90 };
+  let mut done = 0u64;
+  for stack in &stacks {
+    let texts: Vec<String> = stack.iter().map(|t| t.text()).collect();
+    let scope_shown = format!("scope (contexts, bottom first): [{}]", texts.join(", "));
+    if q_scope(&texts).is_none() {
+      rep.disagree(Kind::ImplVsModel, "qualified-names", "qualified-names: a generated scope text is not a context", &scope_shown, "error", "a context");
+      continue;
+    }
+    for i in 0..per_stack {
+      let (pos, expect) = Q_POSITIONS[(i + rng.below(2) as usize * 31) % Q_POSITIONS.len()];
+      let (q, r) = (q_path(rng, stack), q_path(rng, stack));
+      let v = rng.below(10) as i64;
+      let text = pos.replace('Q', "\u{3}").replace('R', &r.join(".")).replace('V', &v.to_string()).replace('\u{3}', &q.join("."));
+      let class = |p: &[String]| match q_resolve(stack, p) {
+        Some(QTree::Num(_)) => "number",
+        Some(QTree::Ctx(_)) => "context",
+        Some(QTree::Other(_)) => "other-value",
+        None => {
+          if q_resolve(stack, &p[..1]).is_some() {
+            "first-segment-bound-tail-unresolved"
+          } else {
+            "first-segment-unbound"
+          }
+        }
+      };
+      let (cq, cr) = (class(&q), class(&r));
+      rep.hit(&format!("qualified-names:Q={}", cq));
+      rep.hit(&format!("qualified-names:segments={}", q.len()));
+      let shown = format!("{} ;; {}", scope_shown, text);
+      rep.case(&format!("qualified|{}", shown), cq != "first-segment-unbound" || cr != "first-segment-unbound");
+      done += 1;
+      // a third of the cases goes through all entry points in a child process as well
+      if i % 3 == 0 {
+        let marked: Vec<String> = texts.iter().map(|t| format!("{}{}", CTX_MARK, t)).collect();
+        let refs: Vec<&str> = marked.iter().map(|s| s.as_str()).collect();
+        inputs.push(("qualified".into(), scoped_input(&refs, &format!("/*small*/ {}", text))));
+      }
+      // a fresh scope for parsing and for evaluation
+      let observed = located(|| {
+        let scope = q_scope(&texts).ok_or_else(|| "scope".to_string())?;
+        let node = dmntk_feel_parser::parse_expression(&scope, &text, false).map_err(|e| format!("parse: {}", e))?;
+        let scope = q_scope(&texts).ok_or_else(|| "scope".to_string())?;
+        dmntk_feel_evaluator::evaluate(&scope, &node).map_err(|e| format!("evaluate: {}", e))
+      });
+      match observed {
+        Err(loc) => {
+          let file = loc.split(':').next().unwrap_or("").to_string();
+          rep.disagree(Kind::ImplVsSpec, "qualified-names", &format!("panic {} (qualified-names)", file), &shown, &format!("panicked at {}", loc), "a value (null when the name has no value)");
+        }
+        Ok(Err(e)) => {
+          rep.hit(if e.starts_with("parse") { "qualified-names:syntax-error" } else { "qualified-names:evaluation-error" });
+        }
+        Ok(Ok(val)) => {
+          let got = plain(&val);
+          rep.hit(&format!("qualified-names:answer={}", if got == "null" { "null" } else { "value" }));
+          // written-out expectation where the name resolves to a number
+          if let (Some(f), Some(QTree::Num(k))) = (expect, q_resolve(stack, &q)) {
+            let want = match pos {
+              "Q" => k.to_string(),
+              "Q + 1" => (k + 1).to_string(),
+              _ => f(v, *k).to_string(),
+            };
+            rep.hit("qualified-names:resolved-number-judged");
+            if got != want {
+              rep.disagree(
+                Kind::ImplVsSpec,
+                "qualified-names",
+                &format!("qualified-names: a name that resolves to a number does not denote it in the position {}", pos),
+                &shown,
+                &got,
+                &want,
+              );
+            }
+          }
+        }
+      }
+    }
+  }
+  rep.extra.insert("qualified_names_cases".into(), json!(done));
+}
+
+// ------------------------------------------------------------------------------------------
+// family `long-history`: one thread, hundreds of distinct patterns / literals / names
+// ------------------------------------------------------------------------------------------
+
+/// The k-th batch of expressions of a history with their written-out values: every text contains the number k, so that
+/// patterns, literals, names, keys, function bodies and types of different batches are pairwise different.
+fn history_batch(k: u64) -> Vec<(String, String)> {
+  let q = |s: String| format!("{:?}", s);
+  vec![
+    (format!("matches(\"order {k}\", \"^order {k}$\")", k = k), "true".into()),
+    (format!("matches(\"order {k}\", \"^order {j}$\")", k = k, j = k + 1), "false".into()),
+    (format!("matches(\"ORDER {k}\", \"^order {k}$\", \"i\")", k = k), "true".into()),
+    (format!("matches(\"x\\ny{k}\", \"^y{k}$\", \"m\")", k = k), "true".into()),
+    (format!("matches(\"a{k}b\", \"a {k} b\", \"x\")", k = k), "true".into()),
+    (format!("matches(\"a\\n{k}\", \"a.{k}\", \"s\")", k = k), "true".into()),
+    (format!("replace(\"item-{k}-end\", \"-{k}-\", \"+\")", k = k), q("item+end".into())),
+    (format!("replace(\"aXb\", \"x\", \"<{k}>\", \"i\")", k = k), q(format!("a<{}>b", k))),
+    (format!("replace(\"v{k}v{k}\", \"v({k})\", \"$1w\")", k = k), q(format!("{k}w{k}w", k = k))),
+    (format!("split(\"left#{k}#right\", \"#{k}#\")", k = k), "[\"left\", \"right\"]".into()),
+    (format!("split(\"p{k}q{k}r\", \"{k}\")", k = k), "[\"p\", \"q\", \"r\"]".into()),
+    (format!("contains(\"abc{k}def\", \"c{k}d\")", k = k), "true".into()),
+    (format!("substring before(\"abc{k}def\", \"{k}\")", k = k), q("abc".into())),
+    (format!("string length(\"{k}\")", k = k), k.to_string().len().to_string()),
+    (format!("\"text {k}\" + \"!\"", k = k), q(format!("text {}!", k))),
+    (format!("{{name {k}: {k}, r: name {k} + 1}}.r", k = k), (k + 1).to_string()),
+    (format!("{{\"key {k}\": {k}}}.key {k}", k = k), k.to_string()),
+    (format!("get value({{key{k}: {k}}}, \"key{k}\")", k = k), k.to_string()),
+    (format!("({{outer{k}: {{inner{k}: {k}}}}}.outer{k}).inner{k}", k = k), k.to_string()),
+    (format!("(function(x{k}) x{k} + {k})(1)", k = k), (k + 1).to_string()),
+    (format!("(function(p: number) p)({k})", k = k), k.to_string()),
+    (format!("{k} in [{k}..{j}]", k = k, j = k + 1), "true".into()),
+    (format!("{k} in (< {k}, > {k})", k = k), "false".into()),
+    (format!("{k}.5 + 0.5", k = k), (k + 1).to_string()),
+    (format!("{k} instance of number", k = k), "true".into()),
+    (format!("{{t{k}: {k}}} instance of context<t{k}: number>", k = k), "true".into()),
+    (format!("for i{k} in 1..3 return i{k} * {k}", k = k), format!("[{}, {}, {}]", k, 2 * k, 3 * k)),
+    (format!("[{k}, {j}, {m}][item > {k}]", k = k, j = k + 1, m = k + 2), format!("[{}, {}]", k + 1, k + 2)),
+    (format!("some e{k} in [{k}] satisfies e{k} = {k}", k = k), "true".into()),
+    (format!("duration(\"P{k}D\").days", k = k), k.to_string()),
+    (format!("duration(\"P{k}M\").months", k = k), (k % 12).to_string()),
+    (format!("duration(\"P{k}M\").years", k = k), (k / 12).to_string()),
+    (format!("@\"PT{k}S\".seconds", k = k), (k % 60).to_string()),
+    (format!("date(\"{y}-03-04\").year", y = 1000 + k), (1000 + k).to_string()),
+    (format!("@\"{y}-03-04\".month", y = 1000 + k), "3".into()),
+    (format!("time(\"10:{m:02}:{s:02}\").second", m = (k / 60) % 60, s = k % 60), (k % 60).to_string()),
+    (format!("date and time(\"{y}-03-04T05:06:07\").hour", y = 1000 + k), "5".into()),
+    (format!("number(\"{k}\", \",\", \".\")", k = k), k.to_string()),
+    (format!("string({k})", k = k), q(k.to_string())),
+    (format!("if {k} > 0 then \"pos{k}\" else \"neg{k}\"", k = k), q(format!("pos{}", k))),
+  ]
+}
+
+fn long_history(rep: &mut Report, rng: &mut Rng, thorough: bool) {
+  // the history runs on this thread only; every answer is judged by the value written next to the text
+  let batches: u64 = if thorough { 3000 } else { 330 };
+  let offset = 1 + rng.below(50);
+  let mut history: Vec<(String, String)> = vec![];
+  for k in 0..batches {
+    history.extend(history_batch(offset + k));
+  }
+  let first_pass = history.len();
+  // again, in the same order (everything seen before, long ago), then in a random order, then alternating old and new
+  let again: Vec<(String, String)> = history.clone();
+  history.extend(again);
+  for _ in 0..first_pass {
+    let k = rng.below(first_pass as u64) as usize;
+    let e = history[k].clone();
+    history.push(e);
+  }
+  for k in 0..(batches / 3) {
+    history.extend(history_batch(offset + batches + k));
+    history.extend(history_batch(offset + k));
+  }
+  // one expression with hundreds of distinct patterns / names / literals
+  for n in [65usize, 130, 300] {
+    let items: Vec<String> = (0..n).map(|i| format!("matches(\"big {i}\", \"^big {i}$\")", i = 7000 + i)).collect();
+    history.push((format!("[{}]", items.join(", ")), format!("[{}]", vec!["true"; n].join(", "))));
+    let entries: Vec<String> = (0..n).map(|i| format!("entry {i}: {i}", i = 8000 + i)).collect();
+    history.push((format!("{{{}}}.entry {}", entries.join(", "), 8000 + n - 1), (8000 + n - 1).to_string()));
+    let items: Vec<String> = (0..n).map(|i| format!("replace(\"r{i}\", \"{i}\", \"\")", i = 9000 + i)).collect();
+    history.push((format!("[{}]", items.join(", ")), format!("[{}]", vec!["\"r\""; n].join(", "))));
+  }
+  let scope = Scope::default();
+  let mut reported = 0;
+  for (i, (text, want)) in history.iter().enumerate() {
+    let observed = located(|| {
+      let node = dmntk_feel_parser::parse_expression(&scope, text, false).map_err(|e| format!("parse: {}", e))?;
+      dmntk_feel_evaluator::evaluate(&scope, &node).map_err(|e| format!("evaluate: {}", e))
+    });
+    let shown = |text: &str| {
+      let t: String = text.chars().take(300).collect();
+      format!("evaluation {} of a history of {} evaluations on one thread (history_batch({}..), then again, shuffled, alternating, big expressions; seed-independent texts): {}", i + 1, history.len(), offset, t)
+    };
+    rep.case(&format!("history|{}|{}", i, text.chars().take(200).collect::<String>()), i > 0);
+    let got = match observed {
+      Err(loc) => {
+        let file = loc.split(':').next().unwrap_or("").to_string();
+        rep.hit("long-history:panic");
+        if reported < 20 {
+          rep.disagree(Kind::ImplVsSpec, "long-history", &format!("panic {} (long-history)", file), &shown(text), &format!("panicked at {}", loc), want);
+          reported += 1;
+        }
+        continue;
+      }
+      Ok(Err(e)) => format!("error: {}", e),
+      Ok(Ok(v)) => plain(&v),
+    };
+    if &got == want {
+      rep.hit("long-history:as-written");
+    } else {
+      rep.hit("long-history:other-answer");
+      if reported < 20 {
+        rep.disagree(Kind::ImplVsSpec, "long-history", "long-history: an evaluation late in a single-thread history does not return the written-out value", &shown(text), &got, want);
+        reported += 1;
+      }
+    }
+  }
+  rep.extra.insert("long_history_evaluations".into(), json!(history.len()));
 }
